@@ -39,7 +39,7 @@ ASSUMPTIONS = ['_RangeIterator read-ahead size is >= 1 (max_batch_size >= 1).',
 
 
 def run(ctx: Ctx):
-  for r in (r1, r2, r3, r4, r6, r7, r8, r9):
+  for r in (r1, r2, r3, r4, r6, r7, r8, r9, r10):
     ctx.guard(r)
 
 
@@ -683,6 +683,50 @@ def r9(ctx: Ctx):
   ctx.floor(rule, 3, n)
 
 
+def r10(ctx: Ctx):
+  rule = 'R-C09-10'
+  ctx.rule(rule, '"shards of shards": every shard() of a shardable data source'
+           ' derives the new shard from the CURRENT one — the new shard state'
+           ' is computed from (or records as parent) the source\'s own shard'
+           ' state / bounds; a shard() that builds its state from the arguments'
+           ' alone overwrites the shard it is applied to, so a sub-shard is a'
+           ' shard of the whole source again (sub-shards of different parents'
+           ' overlap, elements are processed several times)')
+  repo = ctx.repo
+  mi = repo.module(IO)
+  n = 0
+  for ci in mi.classes.values():
+    fi = ci.methods.get('shard')
+    if fi is None:
+      continue
+    n += 1
+    ctors = [c for c in ast.walk(fi.node) if isinstance(c, ast.Call) and unparse(c.func).endswith('ShardConfig')]
+    if not ctors:
+      raise AnalysisError(f'{rule}: {ci.name}.shard builds no ShardConfig')
+    own = ('self._shard_state', 'self.state', 'self.start', 'self.end', 'self._start', 'self._end')
+    locals_from_self = {x.targets[0].id for x in walk_no_nested(fi.node) if isinstance(x, ast.Assign)
+                        and isinstance(x.targets[0], ast.Name)
+                        and any(unparse(y).startswith(own) for y in ast.walk(x.value) if isinstance(y, ast.Attribute))}
+    def from_current(c):
+      for y in ast.walk(c):
+        if isinstance(y, ast.Attribute) and unparse(y).startswith(own):
+          return True
+        if isinstance(y, ast.Name) and y.id in locals_from_self:
+          return True
+      return False
+    if all(from_current(c) for c in ctors):
+      ctx.ok(rule, fi, f'{ci.name}.shard derives the new state from the current shard', ctors[0])
+    else:
+      c = next(c for c in ctors if not from_current(c))
+      ctx.fail(rule, fi, f'{ci.name}.shard: new shard state derived from the current shard state',
+               f'{ci.name}.shard builds `{unparse(c)[:60]}` from its arguments alone and'
+               ' discards the shard this source already is: sharding a shard'
+               ' (thread sub-shards of a distributed shard) yields a shard of the'
+               ' WHOLE source, so the sub-shards of different shards overlap',
+               node=c)
+  ctx.floor(rule, 2, n)
+
+
 from mlmverif.selfcheck import B, OK  # noqa: E402
 
 _F = 'chainables/io.py'
@@ -731,6 +775,9 @@ VARIANTS = [
       'R-C09-9'),
     B('slice-no-empty-return', 'utils/iter_utils.py',
       '    if start_index >= stop_index:\n      return iter(())\n', '', 'R-C09-9'),
+    B('revert-iterable-subshard', _F,
+      '    current = self._shard_state\n    shard_state = ShardConfig(\n        current.shard_index + current.num_shards * shard_index,\n        current.num_shards * num_shards,\n        current.start_index,\n    )\n    return dc.replace(self, _shard_state=shard_state)',
+      '    return dc.replace(self, _shard_state=ShardConfig(shard_index, num_shards))', 'R-C09-10'),
     B('seq-idxs-not-cumulative', 'utils/iter_utils.py',
       '    self._seq_idxs.extend(itt.accumulate(map(len, self._sequences), op.add))',
       '    self._seq_idxs.extend(map(len, self._sequences))', 'R-C09-7'),
